@@ -22,3 +22,14 @@ VARIANTS = [
     M('C15', 'refactor-extract-tmp-helper', [E(CF, "                    tmpActualPath = os.path.join(\n                        self.tmp_dir, 'actual-raw-' + commonname\n                    )",
                                                "                    tmpActualPath = self.tmp_path_for(commonname, prefix='actual-raw-')")], kind='refactor'),
 ]
+
+VARIANTS += [
+    M('C15', 'revert-fix-raw-artefact-after-removals', E(CF, "                actual=raw_actual,\n                expected=raw_expected,", "                actual=actual,\n                expected=expected,"),
+      rule='C15-RAWLINES', key='check_strings'),
+    M('C15', 'raw-copy-taken-after-preprocess', E(CF, "        raw_actual = actual\n        raw_expected = expected\n        if preprocess:\n            expected = preprocess(expected)\n            actual = preprocess(actual)\n",
+                                                  "        if preprocess:\n            expected = preprocess(expected)\n            actual = preprocess(actual)\n        raw_actual = actual\n        raw_expected = expected\n"),
+      rule='C15-RAWLINES', key='check_strings'),
+    M('C15', 'normalise-once-hoisted', E(CF, "        raw_actual = actual\n        raw_expected = expected\n", "        if lstrip or rstrip:\n            actual = [normalize(s) for s in actual]\n            expected = [normalize(s) for s in expected]\n        raw_actual = actual\n        raw_expected = expected\n"),
+      rule='C15-RAWLINES', key='check_strings'),
+    M('C15', 'refactor-raw-copies-renamed', [E(CF, "raw_actual", "given_actual", count=None), E(CF, "raw_expected", "given_expected", count=None)], kind='refactor'),
+]
